@@ -13,6 +13,10 @@ OK_PRESERVING = ('std::ops::Try::branch', 'std::result::Result::<T, E>::map_err'
                  'std::result::Result::<T, E>::or_else')
 
 
+def _ok_preserving(d):
+    return d in OK_PRESERVING or d.endswith('as std::ops::Try>::branch') or any(d.endswith('>::' + n) or d.endswith('::' + n) for n in ('map_err', 'or_else')) and 'Result' in d
+
+
 def _const_tuples_returned(body):
     """Set of constant tuples assigned to _0 (None entries if not constant)."""
     out = set()
@@ -144,13 +148,54 @@ def _ok_payload_call(tree):
             inner = t[1][1]
             # unwrap preserving calls
             for _ in range(6):
-                if inner[0] == 'call' and inner[4] in OK_PRESERVING:
+                if inner[0] == 'call' and _ok_preserving(inner[4]):
                     inner = inner[2][0]
                     continue
                 break
             return inner if inner[0] == 'call' else None
         return None
     return None
+
+
+def _parse_through_helper(f, call, value_arg, depth=0):
+    """`call` invokes a crate-local helper with the value text; on every returning path the helper returns either the Ok payload of
+    parsing that parameter (possibly through map_err / ?) or an Err: then the payload the caller stores is the parsed text"""
+    if depth >= 2 or call[0] != 'call':
+        return False
+    hb = f.generic_body(call[4])
+    if hb is None:
+        return False
+    ks = [k + 1 for k, a in enumerate(call[2]) if _mentions_arg(a, value_arg)]
+    if not ks:
+        return False
+    hbody = Body(hb)
+    saw_ok = False
+    for p in enumerate_paths(hbody):
+        if not path_ends_in_return(hbody, p):
+            continue
+        from paths import PathFacts
+        pf = PathFacts(hbody, p)
+        ret = pf.ret
+        if ret is None:
+            return False
+        t = ret
+        for _ in range(6):
+            if t[0] == 'call' and _ok_preserving(t[4]):
+                t = t[2][0]
+                continue
+            break
+        if t[0] == 'call' and (_is_parse_call(t) or _parse_through_helper(f, t, ks[0], depth + 1)) and any(_mentions_arg(t, k) for k in ks):
+            saw_ok = True
+            continue
+        if t[0] == 'agg' and str(t[2]).endswith('Result::Err'):
+            continue
+        if t[0] == 'agg' and str(t[2]).endswith('Result::Ok') and t[3]:
+            inner = _ok_payload_call(t[3][0])
+            if inner is not None and (_is_parse_call(inner) or _parse_through_helper(f, inner, ks[0], depth + 1)) and any(_mentions_arg(inner, k) for k in ks):
+                saw_ok = True
+                continue
+        return False
+    return saw_ok
 
 
 def _last(s):
@@ -217,6 +262,8 @@ def s14_set_arms(ctx):
                     continue
                 vals = [v for v, bb in t['targets'] if bb == b]
                 truth = not (0 in vals)   # switch on bool: 0 -> false
+                if dt[0] == 'call' and dt[1].endswith('::ne'):
+                    truth = not truth       # `name != "lit"`: the name equals the literal when the test is false
                 (true_lits if truth else false_lits).append(lit)
             writes = []
             for bi in p:
@@ -273,7 +320,7 @@ def s14_set_arms(ctx):
                                       % (lit, cname, '.'.join(fp), lit), body.file, line)
                             continue
                         call = _ok_payload_call(tree)
-                        if call is None or not _is_parse_call(call) or not _mentions_arg(call, value_arg):
+                        if call is None or not _mentions_arg(call, value_arg) or not (_is_parse_call(call) or _parse_through_helper(f, call, value_arg)):
                             r.violate(key + '|value-not-parsed-text', 'arm "%s" stores %s, which is not the Ok payload of parsing the value text'
                                       % (lit, tree_str(tree)), body.file, line)
                         else:
@@ -325,7 +372,7 @@ def _str_eq_literal(tree, name_arg, facts=None):
     if t[0] != 'call':
         return None
     cid = t[1]
-    if not ('PartialEq' in cid and cid.endswith('::eq')):
+    if not ('PartialEq' in cid and (cid.endswith('::eq') or cid.endswith('::ne'))):
         return None
     args = t[2]
     if len(args) != 2:
